@@ -832,6 +832,22 @@ class Ev:
                     sv = self.eval(x, env, depth)  # evaluated for Unsupported detection; value dropped
                     if isinstance(sv, Sym) and sv.tag and sv.tag[0] == "diverges":
                         return sv
+                    if isinstance(sv, Alt) and any(isinstance(xv, EarlyRet) for _, xv in flat_alts(sv)):
+                        # `validate(..)?;` — the statement's value is dropped, but on the alternatives where `?` returns the function is left
+                        out = []
+                        for gs, xv in flat_alts(sv):
+                            g = gs[0] if len(gs) == 1 else ("all", gs)
+                            if isinstance(xv, EarlyRet):
+                                out.append((g, xv))
+                                continue
+                            self.path.extend(gs)
+                            try:
+                                out.append((g, self._run_block(e, i + 1, dict(env), depth)))
+                            except Return as ret:
+                                out.append((g, EarlyRet(ret.value)))
+                            finally:
+                                del self.path[len(self.path) - len(gs):]
+                        return Alt(out)
         if "e" in e:
             return self.eval(e["e"], env, depth)
         return Sym("unit")
@@ -1002,14 +1018,50 @@ class Ev:
         return None
 
     def exec_block(self, b, env, depth):
-        for s in b["stmts"]:
-            if s["k"] == "let":
-                if "init" in s:
-                    self.bind(s["pat"], self.collapse(self.eval(s["init"], env, depth)), env)
-            elif s["k"] in ("expr", "semi"):
-                self.exec_stmt(s["e"], env, depth)
-        if "e" in b:
-            self.exec_stmt(b["e"], env, depth)
+        pushed = 0
+        try:
+            for s in b["stmts"]:
+                if s["k"] == "let":
+                    if "init" in s:
+                        cont = self.continue_guard(s["init"], env, depth) if self.loops else None
+                        if cont is not None:
+                            # `let v = match o { Some(x) => x, None => continue };` inside a loop body: the rest of the body runs under the arm's guard
+                            g, val = cont
+                            self.bind(s["pat"], val, env)
+                            self.guards.append(g)
+                            pushed += 1
+                            continue
+                        self.bind(s["pat"], self.collapse(self.eval(s["init"], env, depth)), env)
+                elif s["k"] in ("expr", "semi"):
+                    x = s["e"]
+                    if self.loops and x.get("k") == "if" and "e" not in x and x["c"].get("k") != "letx" and is_continue_block(x["t"]):
+                        self.guards.append(neg_guard(guard_of(self.eval(x["c"], env, depth))))       # `if c { continue; }`
+                        pushed += 1
+                        continue
+                    self.exec_stmt(x, env, depth)
+            if "e" in b:
+                self.exec_stmt(b["e"], env, depth)
+        finally:
+            for _ in range(pushed):
+                self.guards.pop()
+
+    def continue_guard(self, init, env, depth):
+        """(guard, bound value) if `init` is a two-arm match / if-let one arm of which is `continue` and the other yields the binding's value."""
+        e = init
+        if e.get("k") == "match" and len(e["arms"]) == 2:
+            cont = [a for a in e["arms"] if is_continue_block(a["body"])]
+            live = [a for a in e["arms"] if not is_continue_block(a["body"])]
+            if len(cont) == 1 and len(live) == 1 and "guard" not in live[0]:
+                scrut = self.eval(e["e"], env, depth)
+                env2 = env
+                r = self.match_pat(live[0]["pat"], scrut, env2)
+                if r is None:
+                    self.bind_pat_loose(live[0]["pat"], scrut, env2)
+                if r is False:
+                    return None
+                g = arm_guard(live[0]["pat"], scrut)
+                return g, self.collapse(self.eval(live[0]["body"], env2, depth))
+        return None
 
     def exec_stmt(self, x, env, depth):
         k = x.get("k")
@@ -1130,7 +1182,12 @@ class Ev:
             env[rid] = Sym("mut", x["m"], vkey(env.get(rid)), tuple(vkey(self.eval(a, env, depth)) for a in x["args"]))
             return
         if k == "ret":
+            if self.loops or self.guards:
+                # a `return` that only some iterations / some branches reach: in loop mode the body is summarised once, so this would be read as unconditional
+                raise Unsupported("conditional return inside a loop body at line %s" % x.get("ln"))
             raise Return(self.eval(x["e"], env, depth) if "e" in x else Sym("unit"))
+        if k in ("break", "continue"):
+            raise Unsupported("%s inside a summarised loop body at line %s" % (k, x.get("ln")))
         v = self.eval(x, env, depth)
         if isinstance(v, Sym) and v.tag[:1] == ("diverges",) and not self.loops and not self.guards:
             raise Return(v)          # `if c { panic!(..) }` as a statement: the path ends here (outside loops, where execution is per path)
@@ -1646,6 +1703,8 @@ class Ev:
                 return Sym("bool", "true" if recv.tag[1] == "None" else "false")
         if any(isinstance(a, Rec) for a in args) and not isinstance(recv, Rec) and self.facts.fn(d) is not None:
             return self.apply_fn(d, [recv] + args, depth)
+        if isinstance(recv, Poly) and args and not all(isinstance(a, Poly) for a in args) and self.facts.fn(d) is not None:
+            return self.apply_fn(d, [recv] + args, depth)       # a float receiver of an in-crate trait impl (`f.partial_cmp(&number)`)
         if isinstance(recv, Poly):
             if m == "t" and not args:
                 return recv.transpose()
@@ -1721,6 +1780,10 @@ class Ev:
             env2 = dict(f.env)
             self.bind(f.params[0], Sym("payload", vkey(recv), 0), env2)
             body = self.collapse(self.eval(f.body, env2, depth))
+            if m == "map_or" and len(args) == 2 and all(isinstance(b_, Sym) and b_.tag[:1] == ("bool",) for b_ in (args[0], body)) and args[0].tag[1] != body.tag[1]:
+                # x.map_or(true, |_| false) is x.is_none(); x.map_or(false, |_| true) is x.is_some()
+                isn = Sym("m", "is_none", vkey(recv), ())
+                return isn if args[0].tag[1] == "true" else Sym("not", vkey(isn))
             return Sym("optcase", m, vkey(recv), tuple(vkey(a) for a in args[:-1]), vkey(body))
         if m in ("eq", "ne") and len(args) == 1 and not isinstance(recv, (Poly, Rec)) and not isinstance(args[0], (Poly, Rec)) and self.facts.fn(d) is None:
             return eq_sym(recv, args[0]) if m == "eq" else Sym("not", vkey(eq_sym(recv, args[0])))      # a.eq(&b) is a == b
@@ -1822,6 +1885,17 @@ def guard_of(cv):
     if isinstance(cv, Sym) and cv.tag[:1] == ("not",) and isinstance(cv.tag[1], tuple) and cv.tag[1][:1] == ("sym",):
         return ("not", ("if", cv.tag[1]))          # `if !c {A} else {B}` branches on c
     return ("if", vkey(cv))
+
+
+def is_continue_block(b):
+    while b.get("k") == "block":
+        if not b["stmts"] and "e" in b:
+            b = b["e"]
+        elif len(b["stmts"]) == 1 and "e" not in b and b["stmts"][0]["k"] in ("expr", "semi"):
+            b = b["stmts"][0]["e"]
+        else:
+            return False
+    return b.get("k") == "continue"
 
 
 def catch_all(arm):
